@@ -665,14 +665,17 @@ class EvolutionSuperOperator(SuperOperator, TimeDependent, Saveable):
 
                 t0 = 0.0
 
-                self.Udt = self._one_step_with_dense_TimeIndep(t0,
+                # the propagator over one interval is kept for the later
+                # steps; it follows the basis like the data it multiplies
+                self.Udt = SuperOperator(data=
+                           self._one_step_with_dense_TimeIndep(t0,
                                                     self.dense_time.length,
-                                                    self.dense_time.step, Nt) 
+                                                    self.dense_time.step, Nt)) 
                 
                 if save:
-                    self.data[1,:,:,:,:] = self.Udt[:,:,:,:]
+                    self.data[1,:,:,:,:] = self.Udt.data[:,:,:,:]
                 else:
-                    self.data[:,:,:,:] = self.Udt[:,:,:,:]
+                    self.data[:,:,:,:] = self.Udt.data[:,:,:,:]
                 
                 self.now += 1
             
@@ -685,10 +688,11 @@ class EvolutionSuperOperator(SuperOperator, TimeDependent, Saveable):
                 
                 if save:
                     self.data[ti, :,:,:,:] = \
-                        numpy.tensordot(self.Udt, self.data[ti-1,:,:,:,:])
+                        numpy.tensordot(self.Udt.data,
+                                        self.data[ti-1,:,:,:,:])
                 else:
                     self.data[:,:,:,:] = \
-                        numpy.tensordot(self.Udt, self.data[:,:,:,:])
+                        numpy.tensordot(self.Udt.data, self.data[:,:,:,:])
                 
                 self.now += 1
 
